@@ -990,7 +990,7 @@ func JudgeCluster(sc *ClusterScenario, tr *Trace) ([]pbt.Violation, ClusterStats
 				sk := seqKey{gk, rt.Receiver, idx}
 				for _, tau := range append(append([]time.Time{}, tr.StepAt...), tr.End) {
 					t1 := tau.Add(-w)
-					if t1.Before(tr.Start.Add(time.Duration(sc.Opts.StartDelay) * time.Second)) {
+					if t1.Before(tr.Start.Add(time.Duration(sc.Opts.EffDelay()) * time.Second)) {
 						continue
 					}
 					// an instance that holds the alert, firing, for the whole window and has been up since before the alert's first submission
@@ -1132,6 +1132,14 @@ func probesFor(m *AlertModel, key string, t1, t2 time.Time) []time.Time {
 func GenClusterScenario(t *rapid.T, healthy bool) ClusterScenario {
 	var sc ClusterScenario
 	sc.LabelSets = genLabelSets(t)
+	// a third of the runs: the gossip of each instance settles a while after its process started. Those runs have one
+	// label set and one route, hence one flush at a time per instance: two flushes waiting in the settle stage at once
+	// would hang a bubble as soon as an implementation serialises them with a mutex (a goroutine waiting for a mutex
+	// whose holder waits for virtual time stops the bubble's clock), which says nothing about the property.
+	settle := sampled(t, "settle", 0, 0, 0, 0, 25, 70)
+	if settle > 0 {
+		sc.LabelSets = sc.LabelSets[:1]
+	}
 	if rapid.IntRange(0, 2).Draw(t, "bigEntries") == 0 {
 		// long label values make group keys, and with them the gossiped log entries, exceed the gossip
 		// packet limit (700 bytes): such entries travel over the oversized path of the real transport
@@ -1145,6 +1153,9 @@ func GenClusterScenario(t *rapid.T, healthy bool) ClusterScenario {
 		}
 	}
 	cfg, maxRI, maxGI := GenConfig(t, sc.LabelSets, GenParams{})
+	if settle > 0 {
+		cfg.Route.Children = nil
+	}
 	sc.Config = cfg
 	sc.N = rapid.IntRange(2, 3).Draw(t, "n")
 	if !healthy && rapid.IntRange(0, 5).Draw(t, "single") == 0 {
@@ -1155,6 +1166,7 @@ func GenClusterScenario(t *rapid.T, healthy bool) ClusterScenario {
 	// a third of the runs: the dispatchers start a while after the processes (cmd/alertmanager waits for the gossip to
 	// settle); alerts posted before that are grouped but their flushes begin late, with the old timer expiry as tick
 	sc.Opts.StartDelay = sampled(t, "startDelay", 0, 0, 0, 0, 20, 45)
+	sc.Opts.Settle = settle
 	perm := rapid.Permutation(func() []int {
 		p := make([]int, sc.N)
 		for i := range p {
